@@ -1,16 +1,17 @@
 #!/bin/bash
-# usage: tools/confirm_mutant.sh <id>   (worktree /tmp/wt/<id> with the change applied and deliver/ inside)
-ID=$1; WT=/tmp/wt/$ID; OUT=/tmp/wt/$ID.confirm.log
+# usage: tools/confirm_mutant.sh <id> <deliver dir>   - fresh worktree of /repo HEAD, apply patch, run tests + demo both ways
+ID=$1; DEL=$2; WT=/tmp/wtc/$ID; OUT=/tmp/wtc/$ID.confirm.log
+mkdir -p /tmp/wtc
 {
+cd /repo && git worktree add -q --detach $WT HEAD || exit 9
 cd $WT
-echo "== git diff --stat"; git diff --stat -- . ':!deliver'
+echo "== demo without the change (expect 0)"
+CARGO_TARGET_DIR=$WT/target bash $DEL/demo/run.sh $WT > /tmp/wtc/$ID.demo_clean.log 2>&1; echo "exit=$?"
+git apply $DEL/patch.diff || echo "PATCH DOES NOT APPLY"
+echo "== git diff --stat"; git diff --stat
 echo "== tests with the change"
 cargo test --workspace --no-fail-fast --offline --target-dir $WT/target 2>&1 | grep -E "^test result" | awk '{p+=$4; f+=$6} END {print "passed",p,"failed",f}'
 echo "== demo with the change (expect non-zero)"
-CARGO_TARGET_DIR=$WT/target bash deliver/demo/run.sh $WT > /tmp/wt/$ID.demo_mut.log 2>&1; echo "exit=$?"
-echo "== demo without the change (expect 0)"
-git stash -q
-CARGO_TARGET_DIR=$WT/target bash deliver/demo/run.sh $WT > /tmp/wt/$ID.demo_clean.log 2>&1; echo "exit=$?"
-git stash pop -q
-git diff --stat -- . ':!deliver' | tail -1
+CARGO_TARGET_DIR=$WT/target bash $DEL/demo/run.sh $WT > /tmp/wtc/$ID.demo_mut.log 2>&1; echo "exit=$?"
+cd /repo && git worktree remove --force $WT
 } > $OUT 2>&1
